@@ -33,12 +33,12 @@ CHECKS = {
          "Pico units outside the schema; instance angle None == 0; port/blockage purposes taken from the supplied Layers (not stored in the raw model).",
          "runtime monitoring: round-trip oracle in both directions over generated libraries/messages", "DESIGN.md 3 C14"),
  "C20": ("exploration",
-         "Every conversion (raw->GDSII, raw->protobuf, protobuf->raw, GDSII->raw, raw->LEF, LEF->raw, gridded->raw) is run 8 times in one process on inputs rebuilt from their seed (fresh RandomState per HashMap, shifted allocations) and, for a sample, in 8 separate child processes; ordered renderings / hashes of the outputs must be identical. The monitor records how many distinct HashMap iteration orders it saw (one = inconclusive).",
+         "Every conversion (raw->GDSII, raw->protobuf, protobuf->raw, GDSII->raw, raw->LEF, LEF->raw, gridded->raw; also raw->GDSII/protobuf with a layer table loaded from markup, and technology protobuf -> layer table) is run 8 times in one process on inputs rebuilt from their seed (fresh RandomState per HashMap, shifted allocations) and, for a sample, in 8 separate child processes; ordered renderings / hashes of the outputs must be identical. The monitor records how many distinct HashMap iteration orders it saw (one = inconclusive).",
          "Hash-map-typed outputs have no order and are rendered sorted; GDSII creation timestamps excluded as documented.",
          "runtime monitoring: repeated-execution differential monitor under varying hash seeds, in- and cross-process", "DESIGN.md 3 C20"),
 
  "C04": ("exploration",
-         "LEF library values over the supported statement subset are generated from a seed and rendered to text by an independent renderer in many lexical forms (statement permutations, whitespace/CRLF, comments incl. non-ASCII, mixed-case keywords, alternative decimal spellings, versions 5.3-5.8, with/without END LIBRARY); LefLibrary::open of each text must return exactly the generated value.",
+         "LEF library values over the supported statement subset are generated from a seed and rendered to text by an independent renderer in many lexical forms (statement permutations, whitespace/CRLF, comments incl. non-ASCII, mixed-case keywords, alternative decimal spellings, versions 5.3-5.8, with/without END LIBRARY); LefLibrary::open of each text must return exactly the generated value (the library's own == and, independently, a structural image of both values with decimals normalised).",
          "Trusted base: the renderer in harness/src/gen/lefgen.rs (keyword spellings typed from the LEF reference). Data-model conventions (quotes kept on string literals, antenna-key and PROPERTY-number spelling kept) are not judged.",
          "runtime monitoring: independent-renderer differential oracle on the reader", "DESIGN.md 3 C04"),
  "C05": ("exploration",
@@ -71,7 +71,7 @@ CHECKS = {
          "Only BNF-ordered streams the reference encoder can produce are claimed; trusted base as C02.",
          "runtime monitoring: reference-encoder differential oracle on the reader", "DESIGN.md 3 C03"),
  "C10": ("fault_enumeration",
-         "Fault enumeration on the real reader: every truncation point of each seed stream and, for every record, every listed single-record fault (length, payload, record type, data type, delete/duplicate/swap/splice), plus byte flips, noise and size scaling. Each execution runs under a panic guard and a logical step budget counted by hooks (records read, parser steps); strict prefixes must be rejected; every accepted input must survive write->read unchanged. An instruction-count leg (valgrind cachegrind, both tiers) bounds the work per step: executed instructions for inputs of doubling size must grow linearly.",
+         "Fault enumeration on the real reader: every truncation point of each seed stream and, for every record, every listed single-record fault (length, payload, record type, data type, delete/duplicate/swap/splice), plus byte flips, noise and size scaling. Each execution runs under a panic guard and a logical step budget counted by hooks (records read, parser steps); strict prefixes must be rejected; every accepted input must contain an end-of-library record (decided by walking the records on the bytes), return only strings that are UTF-8 and coordinates that occur in the stream, and survive write->read unchanged. An instruction-count leg (valgrind cachegrind, both tiers) bounds the work per step: executed instructions for inputs of doubling size must grow linearly.",
          "'Time proportional to length' is decided as bounded progress on hook-counted steps plus the instruction-count leg; wall-clock only as watchdog (inconclusive). Memory-safety clause: gds21 has no unsafe; sanitizer legs are secondary.",
          "runtime monitoring: fault injection + panic/step-budget monitors + closure oracle", "DESIGN.md 3 C10"),
  "C12": ("exploration",
